@@ -167,11 +167,11 @@ fn c01_one(ctx: &mut Ctx, c: &DayCase) {
             e[2] = e[2].max(d2.abs());
             e[3] = e[3].max(hh.abs());
         });
-        if !(1.7..=2.3).contains(&d1) || d2.abs() > 0.02 || hh.abs() > 0.5 {
+        if !(1.7..=2.3).contains(&d1) || d2.abs() > 0.019 || hh.abs() > 0.5 {
             ctx.fail(
                 c.to_json(),
                 format!("RA motion over the two days {:.5} deg, second difference {:.5} deg, hour angle at the mean transit {:.5} deg", d1, d2, hh),
-                "the envelope under which C01.residual_bound bounds the residual of the single correction step: 1.7 <= d1 <= 2.3, |d2| <= 0.02, |H| <= 0.5".into(),
+                "the envelope under which C01.residual_bound bounds the residual of the single correction step: 1.7 <= d1 <= 2.3, |d2| <= 0.019, |H| <= 0.5".into(),
             );
             return;
         }
@@ -234,7 +234,7 @@ pub fn c01(ctx: &mut Ctx, tier: &str, r: &mut Rng, js: &[Value], reqs: &[String]
     let env = ENVELOPE.with(|e| *e.borrow());
     ctx.finish(json!({"oracle_self_test_deg": [ra, dec, st],
         "residual_bound_envelope_seen": {"d1_min": env[0], "d1_max": env[1], "abs_d2_max": env[2], "abs_H_max": env[3],
-            "required": "1.7 <= d1 <= 2.3, |d2| <= 0.02, |H| <= 0.5"}}));
+            "required": "1.7 <= d1 <= 2.3, |d2| <= 0.019, |H| <= 0.5"}}));
 }
 
 // ------------------------------------------------------------------------------------ C02
